@@ -1,9 +1,15 @@
 (* C19 — The self-organising population keeps a well-formed map.
    All statements are about the executable model Model/Gsom.v (lattice part of rosomaxa's GSOM network, node storages, Rosomaxa
    phase machine); float-decided choices (best matching units, threshold decisions, re-training order) are universally
-   quantified oracle arguments.  Finiteness of weights and error measures is NOT claimed here (floats are not modelled); it is
-   monitored on the implementation by the check (exploration level). *)
-From VRP Require Import Base.Tac Model.Gsom Proofs.GsomP.
+   quantified oracle arguments.
+   Second half (theorems C19_weights_..., C19_float_...): the NUMERIC model Model/GsomW.v (weights, errors, min/max tracking, distances, measures
+   written once over an abstract arithmetic) at two instances: exact rationals `QN sq` (sq = the square root, only assumed
+   non-negative) and IEEE binary64 `FN` = Coq primitive floats, the instance that is compared bit for bit with the real Network on
+   every run (sub-stream c19_weights).  Finiteness is proved for Node::adjust and the euclidian distance under explicit bounds and
+   REFUTED beyond them (finding C19-F3); node.error is not bounded (finding C19-F1). *)
+From Coq Require Import QArith Qminmax Floats.
+From VRP Require Import Base.Tac Model.Gsom Proofs.GsomP Model.SlotF Model.GsomW Model.GsomF Proofs.GsomWP Proofs.GsomFP.
+Close Scope Q_scope.
 
 (* after Network::new and after every later store_batch / smooth / compact, for every input stream, configuration and oracle:
    unique keys, key = node.coordinate, weights of the input dimension, capacity node_size, storage within capacity, >= 4 nodes *)
@@ -105,3 +111,158 @@ Proof. exact compact_witness. Qed.
 Theorem C19_nonvacuous_phases :
   exists s, rrun dedupf (ro_new (mkR 4 2 900)) [RAdd w_data; RGen 10 900; RGen 950 900] = Ok s /\ ro_phase s = PExploitation.
 Proof. exact phase_witness. Qed.
+
+(* ================= numeric half: Model/GsomW.v ================= *)
+
+(* "all weights are ... of the input dimension", now from the arithmetic: for ANY arithmetic (rationals, binary64) and every history of
+   store_batch / smooth / compact / set_learning_rate that the model accepts, every node's weight vector and the min/max vectors keep
+   the dimension d (Node::adjust zips, the growth cases a-d zip two node vectors or map the min/max vector) *)
+Theorem C19_weights_keep_dimension :
+  forall (T : Type) (N : num T) (d : nat) (n : wnet (T := T)) (ops : list wop) (n' : wnet (T := T)),
+    (Forall (fun kv => length (w_w (snd kv)) = d) (wn_nodes n) /\ length (mm_min (wn_mm n)) = d /\ length (mm_max (wn_mm n)) = d) ->
+    runW N n ops = Ok n' ->
+    Forall (fun kv => length (w_w (snd kv)) = d) (wn_nodes n') /\ length (mm_min (wn_mm n')) = d /\ length (mm_max (wn_mm n')) = d.
+Proof. exact (fun T N d => runW_dim N d). Qed.
+
+(* Node::adjust over exact arithmetic is the convex step (1 - rate) * w + rate * target: with 0 <= rate <= 1 the adjusted weight lies
+   between the old weight and the target, hence inside every interval that contains both *)
+Theorem C19_adjust_convex_step :
+  forall (sq : Q -> Q) (lr w v lo hi : Q),
+    (adjust1 (QN sq) lr w v == (1 - lr) * w + lr * v)%Q /\
+    ((0 <= lr <= 1)%Q -> (Qmin w v <= adjust1 (QN sq) lr w v <= Qmax w v)%Q) /\
+    ((0 <= lr <= 1)%Q -> (lo <= w <= hi)%Q -> (lo <= v <= hi)%Q -> (lo <= adjust1 (QN sq) lr w v <= hi)%Q).
+Proof. exact adjust_convex_step_all. Qed.
+
+(* what the code guarantees about the rate: Network::adjust_weights uses learning_rate * (1 - 3.8 / #nodes), a quarter of it for
+   re-trained input, divided by the Manhattan distance for neighbours: all in [0, 1] when 0 <= learning_rate <= 1 and the map has at
+   least 4 nodes (C19_wellformed_after_every_operation); Rosomaxa's cosine annealing supplies rates in [0.1, 1] *)
+Theorem C19_learning_rates_in_unit_interval :
+  forall (sq : Q -> Q) (lr : Q) (len : nat) (is_new : bool) (k : Z) (c : Q),
+    ((0 <= lr <= 1)%Q -> (4 <= len)%nat -> (0 <= base_rate (QN sq) lr len is_new <= 1)%Q) /\
+    ((0 <= lr <= 1)%Q -> (4 <= len)%nat -> 1 <= k -> (0 <= base_rate (QN sq) lr len is_new / inject_Z k <= 1)%Q) /\
+    ((-1 <= c <= 1)%Q -> (1 # 10 <= learning_rate_of_cos c <= 1)%Q).
+Proof. exact learning_rates_all. Qed.
+
+(* the non-growing updates (smooth = retrain without growth, for any number of rounds and any order of the re-trained individuals;
+   the re-training of compact = train_on_data(data, false)) keep every node weight inside any box that contains all node weights and
+   all stored / re-trained individuals — per coordinate the hull [min, max] — when 0 <= learning rate <= 1 and the map has >= 4 nodes *)
+Theorem C19_weights_stay_in_hull_when_not_growing :
+  forall (sq : Q -> Q) (B : list (Q * Q)) (n n' : wnet (T := Q)),
+    let inside := fun w : list Q => Forall2 (fun b v => (fst b <= v <= snd b)%Q) B w in
+    let ok := fun m : wnet (T := Q) =>
+      Forall (fun kv => inside (w_w (snd kv)) /\ Forall (fun x => inside (itw (QN sq) x)) (w_st (snd kv))) (wn_nodes m) /\
+      (4 <= length (wn_nodes m))%nat /\ (0 <= wn_lr m <= 1)%Q in
+    ok n ->
+    (forall rounds, smoothW (QN sq) n rounds = Ok n' -> ok n') /\
+    (forall data, Forall (fun x => inside (itw (QN sq) x)) data -> train_on_dataW (QN sq) n data false = Ok n' -> ok n').
+Proof. exact hull_all. Qed.
+
+(* the grown weights (Network::grow_nodes): case b is the midpoint of two nodes, case d the midpoint of min/max: inside the hull;
+   cases a and c are 2 * w1 - w2 whichever branch of `if w2 > w1` is taken: inside the hull WIDENED BY ITS OWN WIDTH on both sides *)
+Theorem C19_grown_weights_bounds :
+  forall (sq : Q -> Q) (w1 w2 lo hi : Q), (lo <= w1 <= hi)%Q -> (lo <= w2 <= hi)%Q ->
+    (lo <= grow_b (QN sq) w1 w2 <= hi)%Q /\ (lo <= grow_d (QN sq) (w1, w2) <= hi)%Q /\
+    (grow_ac (QN sq) w1 w2 == 2 * w1 - w2)%Q /\ (lo - (hi - lo) <= grow_ac (QN sq) w1 w2 <= hi + (hi - lo))%Q.
+Proof. exact grown_bounds_all. Qed.
+(* ... and they do leave the hull: weights 1 and 0 extrapolate to 2 (not a violation of the property, which asks for finiteness) *)
+Theorem C19_grown_weights_in_hull_refuted :
+  exists w1 w2 lo hi : Q, (lo <= w1 <= hi)%Q /\ (lo <= w2 <= hi)%Q /\ ~ (grow_ac (QN (fun x => x)) w1 w2 <= hi)%Q.
+Proof. exact grow_ac_leaves_hull. Qed.
+
+(* find_bmu returns the FIRST node (iteration order of the map) of minimal distance: everything before it is strictly farther,
+   everything after it at least as far (min_by keeps the earlier element on ties) *)
+Theorem C19_bmu_is_first_argmin :
+  forall (sq : Q -> Q) (l : wmap (T := Q)) (m : mm (T := Q)) (w : list Q) (nd : wnode (T := Q)) (dv : Q),
+    find_bmu (QN sq) l m w = Some (nd, dv) ->
+    dv = distance (QN sq) (w_w nd) w m /\
+    exists pre k post, l = pre ++ (k, nd) :: post /\
+      (forall kv, In kv pre -> (dv < distance (QN sq) (w_w (snd kv)) w m)%Q) /\
+      (forall kv, In kv post -> (dv <= distance (QN sq) (w_w (snd kv)) w m)%Q).
+Proof. exact find_bmu_argmin. Qed.
+
+(* accumulated errors never become negative along any history (threshold, distribution factor >= 0, sqrt >= 0), and the growth /
+   distribution test is exactly `growing_threshold <= node.error` — `>=` as coded, so an error EQUAL to the threshold triggers it *)
+Theorem C19_errors_nonnegative_and_growth_test :
+  forall (sq : Q -> Q) (n : wnet (T := Q)) (ops : list wop) (n' : wnet (T := Q)),
+    (forall x, (0 <= sq x)%Q) ->
+    (Forall (fun kv => (0 <= w_e (snd kv))%Q) (wn_nodes n) /\ (0 <= wn_thr n)%Q /\ (0 <= wn_df n)%Q) ->
+    runW (QN sq) n ops = Ok n' ->
+    (Forall (fun kv => (0 <= w_e (snd kv))%Q) (wn_nodes n') /\ (0 <= wn_thr n')%Q /\ (0 <= wn_df n')%Q) /\
+    (forall nd, exceeds (QN sq) n' nd = true <-> (wn_thr n' <= w_e nd)%Q) /\
+    (forall nd, (w_e nd == wn_thr n')%Q -> exceeds (QN sq) n' nd = true).
+Proof. exact errors_growth_all. Qed.
+
+(* squared distance, distance, Node::mse and Network::mse are non-negative over exact arithmetic (any state, any min/max) *)
+Theorem C19_measures_nonnegative :
+  forall (sq : Q -> Q) (n : wnet (T := Q)) (nd : wnode (T := Q)) (l r : list Q),
+    (0 <= dist2 (QN sq) l r (wn_mm n))%Q /\ ((forall x, (0 <= sq x)%Q) -> (0 <= distance (QN sq) l r (wn_mm n))%Q) /\
+    (0 <= node_mse (QN sq) (wn_mm n) nd)%Q /\ (0 <= net_mse (QN sq) n)%Q.
+Proof. exact measures_all. Qed.
+
+(* ----- IEEE binary64 (the twin that is compared bit for bit with the implementation) ----- *)
+
+(* "all weights are finite", Node::adjust: weights and target within 2^1021 and a rate in [0, 1] give finite adjusted weights
+   (within 2^1023); no NaN / infinity can be produced *)
+Theorem C19_float_adjust_finite :
+  forall (w t : list PrimFloat.float) (lr : PrimFloat.float),
+    Forall (fun x => (abs x <=? 0x1p1021)%float = true) w -> Forall (fun x => (abs x <=? 0x1p1021)%float = true) t ->
+    (0 <=? lr)%float = true -> (lr <=? 1)%float = true ->
+    Forall (fun x => PrimFloat.is_finite x = true /\ (abs x <=? 0x1p1023)%float = true) (adjust FN w t lr).
+Proof. exact float_adjust_finite. Qed.
+
+(* "error measures stay finite", euclidian distance (the error that is accumulated, the summand of unified_distance): when both
+   vectors lie coordinate-wise between the tracked min and max and these are within 2^1022, every normalised coordinate is in
+   [0, 1] and the distance is finite and >= 0, for every dimension below 2^53 (also in the reset state min = 0, max = 1) *)
+Theorem C19_float_distance_finite :
+  forall (l r : list PrimFloat.float) (m : mm (T := PrimFloat.float)),
+    (Z.of_nat (length l) < 2 ^ 53)%Z ->
+    let ok := fun (v : PrimFloat.float) (p : PrimFloat.float * PrimFloat.float) =>
+      ((abs (fst p) <=? 0x1p1022) && (abs (snd p) <=? 0x1p1022) && (fst p <=? v) && (v <=? snd p))%float = true in
+    Forall2 ok l (mm_iter FN m) -> Forall2 ok r (mm_iter FN m) ->
+    PrimFloat.is_finite (distance FN l r m) = true /\ (0 <=? distance FN l r m)%float = true.
+Proof. exact float_distance_finite. Qed.
+
+(* CLAUSES NOT HOLDING for finite inputs next to f64::MAX (finding C19-F3; witness on the implementation:
+   corpus/C19/c19_weights/F3-nonfinite-near-f64-max.json): Node::adjust moves f64::MAX towards -f64::MAX with rate 1 to -inf ... *)
+Theorem C19_float_adjust_finite_refuted :
+  PrimFloat.is_finite (f_of_bits bMAX) = true /\ PrimFloat.is_finite (f_of_bits bNMAX) = true /\
+  run_adjustF [bMAX] [bNMAX] 4607182418800017408 = [18442240474082181120] /\
+  PrimFloat.is_finite (adjust1 FN 1%float (f_of_bits bMAX) (f_of_bits bNMAX)) = false.
+Proof. exact float_adjust_overflow. Qed.
+(* ... and with min = -f64::MAX, max = f64::MAX tracked, the range max - min overflows: the distance of the two extreme vectors is NaN
+   (inf / inf) while ordinary vectors collapse to distance 0 *)
+Theorem C19_float_distance_finite_refuted :
+  let m := mkMM [f_of_bits bNMAX] [f_of_bits bMAX] false in
+  PrimFloat.is_nan (distance FN [f_of_bits bMAX] [f_of_bits bNMAX] m) = true /\
+  PrimFloat.is_nan (distance FN [1%float] [2%float] m) = false /\
+  bits_of_f (distance FN [1%float] [2%float] m) = 0.
+Proof. exact float_distance_nan. Qed.
+(* the convexity of C19_adjust_convex_step does NOT carry over to binary64 literally: one rounding can leave the interval
+   (w = 1, target = 5e-324, rate = 1 gives 0); not asked for by the property, recorded as the difference between the two instances *)
+Theorem C19_float_adjust_between_refuted :
+  let r := adjust1 FN 1%float 1%float (f_of_bits 1) in
+  bits_of_f r = 0 /\ PrimFloat.ltb r (f_of_bits 1) = true /\ PrimFloat.ltb r 1%float = true.
+Proof. exact float_adjust_leaves_hull. Qed.
+
+(* non-vacuity of the numeric theorems: a concrete 2 x 2 network over Q satisfies the hull hypotheses and smoothing succeeds; a
+   history smooth / store_batch / set_learning_rate / compact succeeds from a state with non-negative errors; the two instances
+   agree on a dyadic adjustment (1.5 towards 4 with rate 0.25 = 2.125) *)
+Theorem C19_nonvacuous_weights :
+  (let inside := fun w : list Q => Forall2 (fun b v => (fst b <= v <= snd b)%Q) [(0%Q, 3%Q)] w in
+   Forall (fun kv => inside (w_w (snd kv)) /\ Forall (fun x => inside (itw (QN wq_id) x)) (w_st (snd kv))) (wn_nodes wq_net) /\
+   (4 <= length (wn_nodes wq_net))%nat /\ (0 <= wn_lr wq_net <= 1)%Q) /\
+  (exists n', smoothW (QN wq_id) wq_net [[1; 2]] = Ok n') /\
+  (Forall (fun kv => (0 <= w_e (snd kv))%Q) (wn_nodes wq_net) /\ (0 <= wn_thr wq_net)%Q /\ (0 <= wn_df wq_net)%Q) /\
+  (exists n', runW (QN wq_id) wq_net wq_ops = Ok n' /\ length (wn_nodes n') = 4%nat) /\
+  run_adjustF [4609434218613702656] [4616189618054758400] 4598175219545276416 = [4611967493404098560] /\
+  run_adjustQ [4609434218613702656] [4616189618054758400] 4598175219545276416 = [(17, 8)].
+Proof. exact nonvacuous_weights_all. Qed.
+Theorem C19_nonvacuous_float_bounds :
+  Forall (fun x => (abs x <=? 0x1p1021)%float = true) [1%float; 2%float] /\ (0 <=? 0.5)%float = true /\ (0.5 <=? 1)%float = true /\
+  map bits_of_f (adjust FN [1%float; 2%float] [2%float; 1%float] 0.5%float) = [4609434218613702656; 4609434218613702656] /\
+  (let m := mkMM [0%float] [4%float] false in
+   let ok := fun (v : PrimFloat.float) (p : PrimFloat.float * PrimFloat.float) =>
+     ((abs (fst p) <=? 0x1p1022) && (abs (snd p) <=? 0x1p1022) && (fst p <=? v) && (v <=? snd p))%float = true in
+   Forall2 ok [1%float] (mm_iter FN m) /\ Forall2 ok [2%float] (mm_iter FN m) /\
+   bits_of_f (distance FN [1%float] [2%float] m) = 4598175219545276416).
+Proof. exact float_bounds_witness. Qed.
